@@ -152,7 +152,16 @@ FormatterLifted == {"FmtSome", "FmtBox", "FmtArc", "FmtCow", "FmtRef"}
 IsNoneW(w) == w = "None" \/ w = "FmtNone"
 
 AddDims(c, ds) == IF c.kind = "metric" THEN [c EXCEPT !.dims = @ \o ds] ELSE c
-AddFlag(c, f) == IF c.kind = "metric" THEN [c EXCEPT !.flags = @ \cup {f}] ELSE c
+\* Flags of a call are a set ({} = the value reported no flags).  Merging is union; merging in NO flags - a
+\* ForceFlag whose constructor returns MetricFlags::empty(), written f = "0" - is the identity of the merge
+\* on either side: it never erases what the value already reported.
+FlagMerge(x, y) == x \cup y
+FlagsOf(f) == IF f = "0" THEN {} ELSE {f}
+AddFlag(c, f) == IF c.kind = "metric" THEN [c EXCEPT !.flags = FlagMerge(@, FlagsOf(f))] ELSE c
+FlagMergeLaws ==
+    \A x \in SUBSET {"A", "B", "C"}, y \in SUBSET {"A", "B", "C"} :
+        /\ FlagMerge(x, {}) = x /\ FlagMerge({}, y) = y
+        /\ x \subseteq FlagMerge(x, y) /\ y \subseteq FlagMerge(x, y) /\ FlagMerge(x, y) = FlagMerge(y, x)
 
 ScaleOb(o, r) ==
     IF r = RZero THEN o   \* ratio 1: the observation is handed on untouched (an Unsigned stays Unsigned)
@@ -241,7 +250,7 @@ DenoteV(b, s) ==
                              first == IF ul = {} THEN "" ELSE s[Min(ul)].to
                          IN  [base EXCEPT
                                 !.dims = @ \o CatDs(s, 1),
-                                !.flags = @ \cup {s[i].f : i \in {j \in DOMAIN s : s[j].w = "Flag"}},
+                                !.flags = @ \cup ({s[i].f : i \in {j \in DOMAIN s : s[j].w = "Flag"}} \ {"0"}),
                                 !.unit = IF ul = {} THEN @ ELSE s[Max(ul)].to,
                                 !.orig = IF @ = "None" /\ ul # {} THEN first ELSE @,
                                 !.obs = [i \in DOMAIN base.obs |->
